@@ -69,6 +69,22 @@ CHECKS = {
              "ratio <= r for every piece (cross-multiplied), blockages untouched.",
         note="r from {1.42,1.5,1.9,2,3}, n<=4 (6 thorough), input ratios <= 8, one or two starting rectangles, die with one blockage.",
         design="5/C11"),
+    'C04': dict(
+        text="Bounded symbolic model checking of the real netlist reader and writer: documents of every module kind with all numbers "
+             "symbolic are loaded by the real Netlist, dumped by the real dump_yaml_* functions, reloaded, and z3 proves on every path "
+             "that the reloaded design equals the first one field by field (kinds, flip, per-region areas, centres, aspect-ratio "
+             "bounds, rectangles with regions and roles, nets with members and weights), that a second dump is identical, and that "
+             "dumping does not alter the design.",
+        note="6 (10) document structures up to 3 modules / 2 nets; the ruamel text layer is bypassed symbolically (tree level) and "
+             "exercised concretely by every witness and counterexample replay.",
+        design="5/C04"),
+    'C05': dict(
+        text="Same documents as C04: z3 proves every derived quantity equals its definition on the source document (areas, "
+             "per-region areas, area-weighted centroids cross-multiplied, rectangle lists, fixed rectangles, wire length with "
+             "sqrt side conditions), and for 16 defect classes injected at every applicable position that every path of the loader "
+             "raises (an accepting path is a counterexample, replayed through the YAML text).",
+        note="bounds as C04; overlapping hard rectangles overlap by a clear margin; sub-tolerance overlaps outside.",
+        design="5/C05"),
     'C13': dict(
         text="The real fruchterman_reingold_layout is executed symbolically for max_iter 0 and 1 from an arbitrary start (inside or "
              "outside the die) with every nonlinear operation an uninterpreted function carrying sign axioms: on every path z3 proves "
